@@ -165,6 +165,9 @@ def history(draw, ntapes=3):
             g = draw(st.sampled_from(["get_state", "get_frequency", "get_last_frequency"]))
             lines.append(f"mon.write('g:' + str(bz{b}.{g}()))")
             ops.append({"m": m, "b": b, "op": g})
+        if o in ("play_tone_d", "beep", "beep_nofreq", "sweep", "melody", "melody_tempo", "play_tone") and draw(st.integers(0, 3)) == 0:
+            lines.append(f"bz{b}.stop()")   # directly after the call, nothing in between
+            ops[-1]["then_stop"] = True
         lines.append(f"mon.write('{m}')")
     tapes = []
     for t in range(ntapes):
@@ -346,6 +349,11 @@ def check_history(case, tape, trace):
                         fails.append(("get_last_frequency", stt["last"], got))
         if budget is not None and sum(delays) > budget + len(delays) + 1e-6:
             fails.append((f"{name}-not-bounded", f"total delay <= {budget} ms (+1 ms per delay)", f"{sum(delays)} ms in {delays[:4]}"))
+        if name == "stop" or op.get("then_stop"):
+            # stop() - alone or directly after a timed call, with no statement in between - silences whatever the pin was doing before
+            stt.update(sounding=False, cur=0.0)
+            if pin_on[pin]:
+                fails.append(("stop-leaves-tone-on", f"pin {pin} silent after stop()", "tone started earlier is still sounding"))
         if ends_silent:
             # the last buzzer event of the call (if any tone was started) must be NOTONE
             last_tone = max((i for i, (k, a) in enumerate(mine) if k == "TONE"), default=-1)
